@@ -2,6 +2,7 @@ package props
 
 import (
 	"github.com/vedadiyan/genql"
+	"math/rand/v2"
 
 	"fmt"
 	"math"
@@ -15,7 +16,7 @@ import (
 
 var c05Floor = []string{"keys.1", "keys.2", "keys.3", "dir.asc", "dir.desc", "dir.mixed", "key.null", "key.computed-null", "key.alias", "key.alias.nonword", "key.alias.shadow", "key.table-qualified", "key.native", "reexec.window", "key.null.multi", "shape.dual", "key.str", "key.num", "ties", "limit.huge",
 	"limit.bare", "limit.beyond-int64", "limit.offset", "limit.comma", "limit.zero", "offset.beyond", "window.straddle", "window.inside", "window.noorder", "where",
-	"shape.distinct", "shape.agg-all", "shape.group", "shape.union", "shape.bigint", "shape.union-order", "shape.qualified", "shape.shrunk-offset", "shape.distinct-star", "shape.union-star-order", "shape.agg-mixed"}
+	"shape.distinct", "shape.agg-all", "shape.group", "shape.union", "shape.bigint", "shape.union-order", "shape.qualified", "shape.shrunk-offset", "shape.distinct-star", "shape.union-star-order", "shape.agg-mixed", "key.native.mixed-types", "limit.zero-padded"}
 
 func init() {
 	fw.Register(&fw.Prop{
@@ -188,8 +189,21 @@ func c05Order(c *fw.Case) {
 	if native {
 		feats = append(feats, "key.native")
 	}
+	// ... or every row's number under a Go type of its own: equal keys of
+	// different types are a tie, and the next key decides
+	mixedTypes := native && c.Chance(0.5)
+	mixSeed := c.R.Uint64()
+	if mixedTypes {
+		feats = append(feats, "key.native.mixed-types")
+	}
 	doc := func() map[string]any {
 		d := DocOf(t)
+		if mixedTypes {
+			mr := rand.New(rand.NewPCG(mixSeed, 7))
+			nativizeMixed(mr, d["t1"].([]any), "n1")
+			nativizeMixed(mr, d["t1"].([]any), "n2")
+			return d
+		}
 		if native {
 			// whole numbers as natively typed Go integers next to fractional float64 values
 			nativize(c, d["t1"].([]any), "n1")
@@ -333,6 +347,12 @@ func c05Order(c *fw.Case) {
 		offS = gen.Pick(c.R, []string{"18446744073709551615", "9223372036854775808"})
 		off = math.MaxInt64
 		feats = append(feats, "limit.beyond-int64")
+	}
+	if lim < 1<<40 && off < 1<<40 && c.Chance(0.12) {
+		// zero-padded numbers are decimal numbers
+		pad := gen.Pick(c.R, []string{"0", "00"})
+		limS, offS = pad+limS, pad+offS
+		feats = append(feats, "limit.zero-padded")
 	}
 	switch spelling {
 	case 0:
